@@ -258,3 +258,44 @@ def check_swaps(method, cls):
     print('BOUNDED-RESULT ' + json.dumps(dict(cases=cases, swapped=swapped, failures=fails[:20])))
     if fails:
         print('REPLAY: VIOLATION-CONFIRMED')
+
+
+def chain_take():
+    """pointsseq._Chain.take / elementseq._Chain.take on chained sequences with pairwise DISTINCT items, for every index array of
+    length <= 4 (incl. unsorted and repeated indices): item k of the result is item indices[k] of the sequence."""
+    import itertools, json, numpy
+    from nutils import element, pointsseq, elementseq
+    line = element.LineReference()
+    pts = [line.getpoints('gauss', d) for d in (1, 3, 5, 7, 9)]
+    refs = [line, line**2, line**3, element.TriangleReference(), element.TetrahedronReference()]
+    cases, failures = 0, []
+    for n1, n2 in ((1, 1), (2, 1), (1, 2), (2, 2), (3, 2)):
+        n = n1 + n2
+        pseq = pointsseq.PointsSequence.from_iter(pts[:n1], 1).chain(pointsseq.PointsSequence.from_iter(pts[n1:n], 1))
+        for k in range(0, 5):
+            for idx in itertools.product(range(n), repeat=k):
+                cases += 1
+                got = [p.npoints for p in pseq.take(numpy.array(idx, dtype=int))]
+                want = [pts[i].npoints for i in idx]
+                if got != want:
+                    failures.append(dict(clause='points-take-keeps-the-order-of-the-indices', sizes=[n1, n2], indices=list(idx), got=got, want=want))
+    # references of different dimension cannot share a sequence: use same-dimension distinct references
+    sq, tri = line**2, element.TriangleReference()
+    import nutils.element as el
+    distinct = [sq, tri, el.WithChildrenReference(sq, tuple(sq.child_refs[:3]) + (sq.child_refs[3].empty,)), el.WithChildrenReference(tri, tuple(tri.child_refs[:2]) + (tri.child_refs[2].empty, tri.child_refs[3]))] if hasattr(sq, 'child_refs') else [sq, tri]
+    for n1 in range(1, len(distinct)):
+        n = len(distinct)
+        rseq = elementseq.References.from_iter(distinct[:n1], 2).chain(elementseq.References.from_iter(distinct[n1:], 2))
+        for k in range(0, 4):
+            for idx in itertools.product(range(n), repeat=k):
+                cases += 1
+                got = [r for r in rseq.take(numpy.array(idx, dtype=int))]
+                want = [distinct[i] for i in idx]
+                if got != want:
+                    failures.append(dict(clause='references-take-keeps-the-order-of-the-indices', split=n1, indices=list(idx)))
+    print('BOUNDED-RESULT ' + json.dumps(dict(cases=cases, failures=failures[:10])))
+    if failures:
+        print('chain.take(%r) on a chain of %r items: %s' % (failures[0]['indices'], failures[0].get('sizes', failures[0].get('split')), failures[0]))
+        print('REPLAY: VIOLATION-CONFIRMED take() of a chained sequence does not return item indices[k] at position k')
+    else:
+        print('REPLAY: not reproduced (%d cases)' % cases)
